@@ -101,6 +101,12 @@ func checkC01(c *Ctx) {
 	checkCacheRefresh(c)
 	// Rollback and Hash are defined by lastSaved: it must follow every successful commit / load
 	checkLastSaved(c)
+	// a discard restores a snapshot that the working tree cannot alias
+	c.rule("FRESH-working-vs-saved", "working tree and last-saved tree never alias", 6)
+	checkWorkingVsSaved(c)
+	// rollback-by-overwrite is made durable by its own commit (also with the fast index off)
+	checkOverwriteSequence(c)
+	checkEmptyValueLegal(c)
 	checkMergeOrder(c)
 	checkIndexIterGuard(c)
 
